@@ -75,7 +75,9 @@ class CombineOutputs(Operation):
                     os.path.realpath(dep_dir), os.path.realpath(copy_into.parent)
                 )
             )
-            if copy_into.exists():
+            # (`exists()` follows links: a link to a version that is gone would
+            # look like "nothing there".)
+            if copy_into.is_symlink() or copy_into.exists():
                 if copy_into.is_symlink() and _made_by_combine(copy_into, dep_id):
                     copy_into.unlink()
                 else:
